@@ -34,3 +34,21 @@ func init() {
 		r.add("DBGG", "debug", "x", "x", nil, nil, "")
 	})
 }
+
+func init() {
+	register("DBGO", "debug order", func(c *Ctx, r *Report) {
+		for _, s := range c.W.orderSites(nil) {
+			fmt.Printf("%-14s %-60s %s\n      %s  %v\n", s.Class, s.Key, c.W.pos(s.Pos), "", s.Effects)
+		}
+		r.add("DBGO", "debug", "x", "x", nil, nil, "")
+	})
+}
+
+func init() {
+	register("DBGI", "debug ir mutations", func(c *Ctx, r *Report) {
+		for _, m := range c.W.irMutations([]string{"generator/", "core/validators", "cmd"}) {
+			fmt.Println(m.Pos, "|", m.Fn, "|", m.Field, "|", m.Root)
+		}
+		r.add("DBGI", "debug", "x", "x", nil, nil, "")
+	})
+}
